@@ -70,6 +70,7 @@ class RichGen:
         self.eg = ExprGen(rng, clean=False)
         self.uid = 0
         self.features: set[str] = set()
+        self.class_alias = (f"{name}.sub.leaf", "LEAF_VALUE")
 
     # -- expressions ------------------------------------------------------------------------------------------------
     def _grammar(self, *, annotation: bool = False) -> str:
@@ -283,8 +284,12 @@ class RichGen:
         if r.random() < 0.4 and not dataclass:
             body += (f"{body_ind}def __init__(self, a: {self.ann()} = None):\n{body_ind}    self.inst_a = a\n"
                      f"{body_ind}    self.inst_b: {self.ann()} = {self.value()}\n{body_ind}    \"\"\"Doc of inst_b.\"\"\"\n")
+            if r.random() < 0.02:
+                # objects defined in the body of __init__ become members of the *function*
+                body += f"{body_ind}    def local_helper(z: {self.ann()} = None): ...\n"
+                self.features.add("function-member")
             self.features.add("instance-attribute")
-        if r.random() < 0.06:
+        if r.random() < 0.015:
             # a member map with the key `kind` / `cls` (the decoder dispatches on these keys)
             body += f"{body_ind}{r.choice(['kind', 'cls'])} = 1\n"
             self.features.add("member-named-kind-or-cls")
@@ -294,7 +299,7 @@ class RichGen:
             self.features.add("nested-class")
         if r.random() < 0.2:
             # (an alias that cannot be resolved inside a class body makes resolve_aliases itself raise: not this property)
-            body += f"{body_ind}from {self.name}.sub.leaf import LEAF_VALUE as class_level_alias\n"
+            body += f"{body_ind}from {self.class_alias[0]} import {self.class_alias[1]} as class_level_alias\n"
         if not body:
             body = f"{body_ind}pass\n"
         self.features.add("class")
@@ -391,6 +396,7 @@ def gen_package(rng: random.Random, name: str, *, flavour: str, depth: int = 2) 
 def gen_namespace(rng: random.Random, name: str, depth: int = 2) -> tuple[list[dict[str, str]], list[str]]:
     """A namespace package ``name`` split over two search paths."""
     g = RichGen(rng, name, flavour="static", depth=depth)
+    g.class_alias = (f"{name}.reg1", "thing")
     r0: dict[str, str] = {}
     r1: dict[str, str] = {}
     r0[f"{name}/reg0/__init__.py"] = g.docstring("") + g.prelude() + g.body((1, 3)) + f"from {name}.reg1 import thing\n"
